@@ -53,6 +53,79 @@ func mixSource(vals []int, resettable bool) iterable.Iterator[int] {
 	return it
 }
 
+// mixTease shows the imparity the Iterator interface documents: at its end HasNext still says true
+// once (the element it pointed to "was removed in between"), the following Next returns (zero, false).
+// A mixer over such sources must emit exactly the elements the sources really deliver.
+type mixTease struct {
+	it     iterable.Iterator[int]
+	teased bool
+}
+
+func (t *mixTease) HasNext() bool { return t.it.HasNext() || !t.teased }
+func (t *mixTease) Next() (int, bool) {
+	if t.it.HasNext() {
+		return t.it.Next()
+	}
+	t.teased = true
+	return 0, false
+}
+func (t *mixTease) Close() error { return t.it.Close() }
+
+type mixTeaseReset struct{ mixTease }
+
+func (t *mixTeaseReset) Reset() error {
+	t.teased = false
+	return t.it.(interface{ Reset() error }).Reset()
+}
+
+func mixTeaseOf(it iterable.Iterator[int]) iterable.Iterator[int] {
+	if _, ok := it.(interface{ Reset() error }); ok {
+		return &mixTeaseReset{mixTease{it: it}}
+	}
+	return &mixTease{it: it}
+}
+
+// pointer elements: the zero value of the element type is not an element (a selector that dereferences
+// its arguments panics on it), so a mixer that consults the selector with anything but two real heads shows
+type mixPtrSrc struct {
+	vals []*int
+	idx  int
+}
+
+func (p *mixPtrSrc) HasNext() bool { return p.idx < len(p.vals) }
+func (p *mixPtrSrc) Next() (*int, bool) {
+	if p.idx < len(p.vals) {
+		p.idx++
+		return p.vals[p.idx-1], true
+	}
+	return nil, false
+}
+func (p *mixPtrSrc) Reset() error { p.idx = 0; return nil }
+func (p *mixPtrSrc) Close() error { return nil }
+
+func mixPtrSource(vals []int) iterable.Iterator[*int] {
+	ps := make([]*int, len(vals))
+	for i := range vals {
+		v := vals[i]
+		ps[i] = &v
+	}
+	return &mixPtrSrc{vals: ps}
+}
+
+// mixPtrView presents a Mixer[*int] as an Iterator[int] (with Reset)
+type mixPtrView struct{ m *iterable.Mixer[*int] }
+
+func (v *mixPtrView) HasNext() bool { return v.m.HasNext() }
+func (v *mixPtrView) Next() (int, bool) {
+	p, ok := v.m.Next()
+	if !ok || p == nil {
+		return 0, ok
+	}
+	return *p, ok
+}
+func (v *mixPtrView) Reset() error { return v.m.Reset() }
+func (v *mixPtrView) Close() error { return v.m.Close() }
+
 // mixerBuild creates the real Mixer[int] for a New step.
 // Variant "nested" (both inputs resettable only) feeds the mixer from two inner
 // mixers, each merging one input with an empty one, as mixer_test.go nests them:
@@ -71,6 +144,17 @@ func mixerBuild(s Step, variant string) (*iterable.Mixer[int], error) {
 		in1.Init(mixSelectors["true"], it1, mixSource(nil, true))
 		in2.Init(mixSelectors["false"], mixSource(nil, true), it2)
 		it1, it2 = in1, in2
+	}
+	if variant == "tease" {
+		it1, it2 = mixTeaseOf(it1), mixTeaseOf(it2)
+	}
+	if variant == "ptr" {
+		sel := s.Str("sel")
+		psf := func(a, b *int) bool { return mixSelectors[sel](*a, *b) } // dereferences: nil is not an element
+		inner := &iterable.Mixer[*int]{}
+		inner.Init(psf, mixPtrSource(s.Ints("s1")), mixPtrSource(s.Ints("s2")))
+		it1, it2 = &mixPtrView{m: inner}, mixSource(nil, true)
+		sf = mixSelectors["true"]
 	}
 	m := &iterable.Mixer[int]{}
 	if strings.HasPrefix(variant, "reinit") {
@@ -116,7 +200,7 @@ func replayMixer(b Behaviour, opt *Options) *Failure {
 	if len(b) == 0 || b[0].Str("op") != "New" {
 		return &Failure{Step: 0, Sig: "harness: behaviour does not start with New"}
 	}
-	if opt.Variant == "nested" && !(b[0].Bool("r1") && b[0].Bool("r2")) {
+	if (opt.Variant == "nested" || opt.Variant == "ptr") && !(b[0].Bool("r1") && b[0].Bool("r2")) {
 		return nil
 	}
 	m, err := mixerBuild(b[0], opt.Variant)
